@@ -67,7 +67,7 @@ PLAN = {
             "thorough": [e1(200000, kinds=BUF_KINDS, probe=0.12), e3(8000)]},
     # syncfan: saturated chooser, one-place out-buffers, commensurate consumers (several out-edges free up in one instant)
     "C15": {"quick": [e3(8000), e3(1600, templates=["syncfan"])], "thorough": [e3(80000), e3(16000, templates=["syncfan"])]},
-    "C16": {"quick": [e3(8000, templates=["pack", "packunpack", "packpack"])], "thorough": [e3(80000, templates=["pack", "packunpack", "packpack"])]},
+    "C16": {"quick": [e3(8000, templates=["pack", "packunpack", "packpack", "loop"])], "thorough": [e3(80000, templates=["pack", "packunpack", "packpack", "loop"])]},
     "C17": {"quick": [e3(8000)], "thorough": [e3(80000)]},
     "C18": {"quick": [e3(8000), e1(8000)], "thorough": [e3(80000), e1(80000)]},
     "C19": {"quick": [{"engine": "E7", "params": {"min_T": 120}, "cases": 160, "timeout": 1200},
@@ -76,10 +76,10 @@ PLAN = {
                       {"engine": "E7", "params": {"children": 0, "templates": ["packunpack", "splitline", "pack", "diamond", "fanin", "line"]}, "cases": 1200, "timeout": 1200}],
             "thorough": [{"engine": "E7", "params": {"min_T": 120}, "cases": 3200, "timeout": 6000},
                          {"engine": "E7", "params": {"children": 0, "templates": ["packunpack", "splitline", "pack", "diamond", "fanin", "line"]}, "cases": 32000, "timeout": 6000}]},
-    "C12": {"quick": [{"engine": "E4", "params": {}, "cases": 12000}, {"engine": "E4", "params": {"aligned": 1, "kind": "cont_nacc"}, "cases": 6000}, {"engine": "E4", "params": {"ragged": 1, "kind": "cont_nacc"}, "cases": 320}, e3(4000, templates=["line", "fanin", "diamond"]), e1(6000, kinds=["belt_nacc", "belt_acc", "slotbelt"], profiles=["slow_consumer", "mixed", "full_store", "burst", "hoarder"])],
-            "thorough": [{"engine": "E4", "params": {}, "cases": 240000}, {"engine": "E4", "params": {"aligned": 1, "kind": "cont_nacc"}, "cases": 60000}, {"engine": "E4", "params": {"ragged": 1}, "cases": 3200}, e3(40000), e1(60000, kinds=["belt_nacc", "belt_acc", "slotbelt"], profiles=["slow_consumer", "mixed", "full_store", "burst", "hoarder"])]},
-    "C13": {"quick": [{"engine": "E4", "params": {}, "cases": 12000}, {"engine": "E4", "params": {"aligned": 1, "kind": "cont_nacc"}, "cases": 6000}, e3(4000, templates=["line", "fanin", "diamond"]), e1(6000, kinds=["belt_nacc", "belt_acc", "slotbelt"], profiles=["slow_consumer", "mixed", "full_store", "burst", "hoarder"])],
-            "thorough": [{"engine": "E4", "params": {}, "cases": 240000}, {"engine": "E4", "params": {"aligned": 1, "kind": "cont_nacc"}, "cases": 60000}, e3(40000), e1(60000, kinds=["belt_nacc", "belt_acc", "slotbelt"], profiles=["slow_consumer", "mixed", "full_store", "burst", "hoarder"])]},
+    "C12": {"quick": [{"engine": "E4", "params": {}, "cases": 12000}, {"engine": "E4", "params": {"aligned": 1, "kind": "cont_nacc"}, "cases": 6000}, {"engine": "E4", "params": {"mixed": 1, "kind": "cont_nacc"}, "cases": 3000}, {"engine": "E4", "params": {"ragged": 1, "kind": "cont_nacc"}, "cases": 320}, e3(4000, templates=["line", "fanin", "diamond"]), e1(6000, kinds=["belt_nacc", "belt_acc", "slotbelt"], profiles=["slow_consumer", "mixed", "full_store", "burst", "hoarder"])],
+            "thorough": [{"engine": "E4", "params": {}, "cases": 240000}, {"engine": "E4", "params": {"aligned": 1, "kind": "cont_nacc"}, "cases": 60000}, {"engine": "E4", "params": {"mixed": 1, "kind": "cont_nacc"}, "cases": 30000}, {"engine": "E4", "params": {"ragged": 1}, "cases": 3200}, e3(40000), e1(60000, kinds=["belt_nacc", "belt_acc", "slotbelt"], profiles=["slow_consumer", "mixed", "full_store", "burst", "hoarder"])]},
+    "C13": {"quick": [{"engine": "E4", "params": {}, "cases": 12000}, {"engine": "E4", "params": {"aligned": 1, "kind": "cont_nacc"}, "cases": 6000}, {"engine": "E4", "params": {"mixed": 1, "kind": "cont_nacc"}, "cases": 3000}, e3(4000, templates=["line", "fanin", "diamond"]), e1(6000, kinds=["belt_nacc", "belt_acc", "slotbelt"], profiles=["slow_consumer", "mixed", "full_store", "burst", "hoarder"])],
+            "thorough": [{"engine": "E4", "params": {}, "cases": 240000}, {"engine": "E4", "params": {"aligned": 1, "kind": "cont_nacc"}, "cases": 60000}, {"engine": "E4", "params": {"mixed": 1, "kind": "cont_nacc"}, "cases": 30000}, e3(40000), e1(60000, kinds=["belt_nacc", "belt_acc", "slotbelt"], profiles=["slow_consumer", "mixed", "full_store", "burst", "hoarder"])]},
     "C20": {"quick": [{"engine": "E8", "params": {"table": "matrix"}, "cases": 2592}, {"engine": "E8", "params": {"table": "invalid"}, "cases": 38},
                       e3(8000), e1(8000, kinds=ALL_KINDS)],
             "thorough": [{"engine": "E8", "params": {"table": "matrix"}, "cases": 7776}, {"engine": "E8", "params": {"table": "invalid"}, "cases": 38},
@@ -95,7 +95,7 @@ RULES = {
            "retrieval was bound while >=2 unreserved items were available; distinct by operation-log hash",
     "C04": "E1 histories; non-trivial = requests that had to wait were granted through >=2 different wake-up paths "
            "(put, get, cancel of put, cancel of get, timer); distinct by operation-log hash",
-    "C05": "E2p: exhaustive sweep of all priority sequences of length <=4 over {-1,0,1} x one optional cancellation x put/get side x same-instant/staggered arrivals on 4 store kinds (8736 cases, complete); E1 priority-storm histories; non-trivial = >=2 grants happened after waiting (so an order among waiting requests was decided); distinct by operation-log hash",
+    "C05": "E1 histories include forgetful clients (tokens freed after use / cancel, addresses re-used) and a script-level caller (active_process None); E2p: exhaustive sweep of all priority sequences of length <=4 over {-1,0,1} x one optional cancellation x put/get side x same-instant/staggered arrivals on 4 store kinds (8736 cases, complete); E1 priority-storm histories; non-trivial = >=2 grants happened after waiting (so an order among waiting requests was decided); distinct by operation-log hash",
     "C06": "E1 hoarder histories; non-trivial = >=1 cancel of a granted retrieval and >=1 binding decided among >=2 candidate items; distinct by operation-log hash",
     "C03": "E3: random factories (templates line/fanin/diamond/multisink/pack/packunpack, every edge type, shuffled construction and connection order, "
            "variants plain/congested/starved/finite); non-trivial = >=1 discard or >=1 blocked push, and >=20 items received; distinct = sha256 of the model spec",
@@ -104,15 +104,15 @@ RULES = {
     "C10": "E3 random factories; non-trivial = >=1 blocked push and >=10 items received (so pulls and pushes were decided under congestion); distinct by spec hash",
     "C11": "E1 histories on Buffer/Fleet with 12% can_put/can_get probes (probe = query, then a reservation issued in the same state) + E3 factories (every can_put of a non-blocking node, every buffer delay draw); "
            "non-trivial = probe issued while >=1 granted-unused reservation existed on the probed side (E1) / >=5 node can_put calls or >=10 delay draws checked (E3)",
-    "C15": "E3 random factories; non-trivial = a node with >=2 edges on the policy's side handled >=6 units while >=1 push was blocked or >=1 item dropped; distinct by spec hash",
-    "C16": "E3 pack / pack-unpack factories (recipes [1,1] [1,2] [1,3,1] [1,1,2]); non-trivial = >=3 pallets checked at the combiner's out-edge; distinct by spec hash",
+    "C15": "E3 random factories (15% with edge lists given to the node constructors and connect calls in another order; indices judged against the declared order) + a block of 'syncfan' models (saturated chooser, one-place out-buffers, commensurate consumers: several out-edges free up in one instant); non-trivial = a node with >=2 edges on the policy's side handled >=6 units while >=1 push was blocked or >=1 item dropped; distinct by spec hash",
+    "C16": "E3 pack / pack-unpack / pack-pack factories (recipes [1,1] [1,2] [1,3,1] [1,1,2], zeros in recipes) and closed loops (a finite population of pallets and items packed, unpacked and fed back, lap after lap); non-trivial = >=3 pallets checked at the combiner's out-edge; distinct by spec hash",
     "C17": "E3 random factories finalised at T (round, non-round, inside set-up, before the first item); non-trivial = a node spent time in >=3 distinct states; distinct by spec hash",
     "C18": "E3 random factories + E1 store histories; non-trivial = >=20 items received and an edge whose occupancy changed >=10 times (E3) / >=6 occupancy changes (E1)",
     "C19": "E7: E3 model specs (>=120 time units) each run twice in one interpreter, once unmonitored, and in 2 fresh interpreters with PYTHONHASHSEED 1 / 4242 and different heap pre-fill; "
            "logs (time, edge, op, item) and final statistics compared exactly; clock monotonicity checked at every kernel step; non-trivial = spec uses RANDOM policies / random delays or a conveyor and logged >=200 item movements",
-    "C12": "E4: scripted producer/consumer on one conveyor (continuous/slotted x accumulating/not; integer belt lengths that are multiples of the item length, plus a 'ragged' geometry class; regular/bursty/irregular/saturating arrivals; eager/stalling consumers) + conveyor edges of E3 factories + hostile multi-client E1 histories on belt stores (tokens held across time, cancels); "
+    "C12": "E4: scripted producer/consumer on one conveyor (continuous/slotted x accumulating/not; integer belt lengths that are multiples of the item length, plus a 'ragged' geometry class; regular/bursty/irregular/saturating arrivals; eager/stalling consumers; a class with items of mixed lengths on one belt) + conveyor edges of E3 factories + hostile multi-client E1 histories on belt stores (tokens held across time, cancels); "
            "non-trivial = >=8 items and (a put and a get in one instant, or >=4 undisturbed journeys checked for exact travel time); distinct by operation-log / spec hash",
-    "C13": "E4 stalling-consumer scripts + conveyor edges of E3 factories + hostile multi-client E1 histories on belt stores (puts with a reservation granted before the stall); non-trivial = >=2 stalls with >=2 items on the belt during one of them; distinct by operation-log / spec hash",
+    "C13": "E4 stalling-consumer scripts (incl. mixed item lengths with repeated short stalls while a long item is entering) + conveyor edges of E3 factories + hostile multi-client E1 histories on belt stores (puts with a reservation granted before the stall); non-trivial = >=2 stalls with >=2 items on the belt during one of them; distinct by operation-log / spec hash",
     "C20": "E8: the complete single-stage matrix node type x edge-in x edge-out x blocking x policy x source blocking x zero delays (2592 models; x3 construction orders in thorough) and the table of 38 invalid configurations (both exhaustive), "
            "+ E3 random factories (every documented combination) + E1 histories on all store kinds incl. belts; non-trivial = every model counts (the property is about each of them); distinct by model index / spec hash",
     "C14": "E5: scripted loading/consumption on one Fleet (capacity 1-5, delay .5-3, transit 0-1.5, gaps aligned with trip boundaries) + E1 fleet histories; "
